@@ -123,6 +123,12 @@ def run(ctx):
         tris = numpy.asarray(tris).reshape(-1, 3)
         tags = [int(t) for t in numpy.asarray(tags).reshape(-1)]
         bad = None
+        if tris.dtype.kind not in 'iu':
+            n_bad = int((tris != tris).any(axis=1).sum()) if tris.dtype.kind == 'f' else len(tris)
+            ctx.case(label, True)
+            ctx.report('property', f'the triangles are not given as vertex numbers ({tris.dtype}): {n_bad} of {len(tris)} triangles name '
+                       f'no vertex of the list', case0)
+            continue
         if len(set(verts)) != len(verts):
             bad = 'the vertex list has duplicates'
         if len(tris) and (tris.min() < 0 or tris.max() >= len(verts)):
